@@ -9,6 +9,8 @@ Two observation points (the property's observe_at):
   * pydrobert.torch.functional.beam_search_advance on dyadic scores (regime E, exact comparison).
 An extreme-magnitude stream (gen_extreme) uses logits scaled by 100..1000, shifted by +-100..1000 or dominated by
 one entry, in float32 and float64 (tolerance/margin from the rounding bound of the sums, _tol_margin).
+A composite-LM stream (gen_fused) hands BeamSearch the library's shallow-fusion wrappers over parts of different classes /
+state layouts; the model sees the equivalent single state machine (product of the parts, Chinese remainders).
 Every BeamSearch output is also judged by the Coq spec checker (PV.C04.Spec.spec_okb), which involves no
 beam-search model, and by the batch-independence relation (each element searched alone).
 """
@@ -1156,7 +1158,7 @@ def gen_fused(rng):
         if V < 2 or c["N"] == 0:
             continue
         eos = None if c["eos"] is None else c["eos"] % V
-        shape = rng.choice(["AB"] * 7 + ["(AB)C", "A(BC)"])
+        shape = rng.choice(["AB"] * 5 + ["(AB)C", "(AB)C", "A(BC)", "A(BC)"])
         n = 2 if shape == "AB" else 3
         kinds = [rng.choice(["rec"] * 6 + ["lookup"] * 3 + ["ctx", "hash"]) for _ in range(n)]
         if all(k in ("lookup", "ctx") for k in kinds) and rng.random() < 0.7:
@@ -1743,7 +1745,13 @@ def run(chk, cases=None):
                 "arguments, initial_state None/{}/omitted, an LM and caller handing over non-contiguous tensors, and a module object used "
                 "before (two identical calls must agree bit for bit) - same model term. staggered-batch stream: eos-eager and eos-averse "
                 "initial states in one batch (an element is frozen and padded strictly before another), eos mostly != 0, default pad. "
-                "About half of the advance cases pass non-contiguous views / float32 / keyword arguments; arguments must stay unchanged")
+                "About half of the advance cases pass non-contiguous views / float32 / keyword arguments; arguments must stay unchanged. "
+                "fused-lm stream: the language model is the library's Extractable/MixableShallowFusionLanguageModel (nested, custom "
+                "prefixes, dyadic beta) over 2-3 parts of different or equal classes (library LookupLanguageModel order 1..3, the hash "
+                "LM, test doubles with state under other key names, batch dimension 0 / 1 / last / none, one or two tensors, stateless, "
+                "strict or re-initialising), initial state of each part given or left to update_input; every part is a state machine "
+                "over Z_Mi with pairwise coprime Mi, so the logical input handed to the model is the product machine over Z_(prod Mi) "
+                "(Chinese remainders) with table = sum of coef_i * table_i - same model term, log-probabilities chained afresh")
     chk.assumptions += [
         "the test LM's rows of log-probabilities are torch's float64 log_softmax of its logits, handed to the model exactly; "
         "sums are compared with tolerance 1e-9 (regime T), decisions kept at margin 1e-6",
@@ -1756,6 +1764,11 @@ def run(chk, cases=None):
         "(the documented contract of calc_idx_log_probs) and idx >= %d (watchdog for max_iters=None)" % CAP,
         "an exception raised by forward() on a valid input is a failing input (nothing is returned); the model does not "
         "describe exceptions",
+        "fused-lm stream: betas are dyadic and the parts' logits multiples of 2^-16, so the fused logits "
+        "(first + beta * second, in float64, or float32 when every part is a float32 lookup model) are exact and equal to the "
+        "product machine's table; the library's LookupLanguageModel is given dense n-gram tables (no backoff is taken); prefix "
+        "pairs are prefix-free (with one prefix a prefix of the other split_dicts is ambiguous: corpus/C04/"
+        "fused_overlapping_prefixes.json.pending)",
     ]
     chk.extra["trusted_base"] = ["float64 rounding of sums in the implementation is bounded by the 1e-9 tolerance, not modelled"]
     torch.set_num_threads(1)
